@@ -310,12 +310,13 @@ def run(s):
 
     # ---------------- 8. apply_default_config / read_config: call-site obligations on the real functions
     s.oblige("C16.apply_default_config.callsite", lambda: apply_default_callsite(cfg), ["config.apply_default_config"])
+    s.oblige("C16.apply_default_config.histories(earlier results edited in place)", lambda: apply_default_histories(cfg), ["config.apply_default_config", FN], kind="finite")
     s.oblige("C16.read_config.dispatch", lambda: read_config_dispatch(cfg), ["config.read_config"], kind="finite")
     # ---------------- 9. validation: enumeration generated from the schema [F over the schema's fields]
     s.oblige("C16.validate_config.schema_perturbations", lambda: validation(s), ["validate.validate_config", "config.schema.json"], kind="finite")
     # ---------------- 10. YAML == JSON loading [bounded]
     yaml_json_bounded(s, cfg)
-    s.min_obligations = 15
+    s.min_obligations = 16
 
 
 def apply_default_callsite(cfg):
@@ -339,6 +340,53 @@ def apply_default_callsite(cfg):
         return core.refuted("callsite", "apply_default_config calls update_config(%r, %r): expected (user settings, packaged defaults)"
                             % tuple((list(args) + [None, None])[:2]), witness_id="apply-default-args", replay={"reproduced": True})
     return core.proved("callsite", "apply_default_config(u) = update_config(u, yaml(default/settings.yaml))")
+
+
+def _scramble(x, depth=0):
+    """edit a configuration object in place at every level: lists grow, leaves change, keys are added and removed"""
+    if isinstance(x, dict):
+        for k in list(x.keys()):
+            v = x[k]
+            if isinstance(v, (dict, list)):
+                _scramble(v, depth + 1)
+            else:
+                x[k] = "scrambled" if not isinstance(v, (int, float)) or isinstance(v, bool) else v + 17
+        x["__added_%d" % depth] = {"x": 1}
+        if len(x) > 2:
+            del x[sorted(k for k in x if not str(k).startswith("__added"))[0]]
+    elif isinstance(x, list):
+        x.append("scrambled")
+        for v in x:
+            if isinstance(v, (dict, list)):
+                _scramble(v, depth + 1)
+
+
+def apply_default_histories(cfg):
+    """update_config aliases sub-trees of its arguments into its result (stated in its contract).  The effective configuration of a LATER call must all the same be
+    user-over-packaged-defaults: every history `r1 = apply(u1); edit r1 in place; r2 = apply(u2)` is compared leaf by leaf with the merge of u2 over the file on disk."""
+    import copy, yaml
+    with open(os.path.join(core.REPO, "cij/data/default/settings.yaml")) as fp:
+        packaged = yaml.safe_load(fp)
+    users = [{}, {"qha": {"input": "a"}}, {"elast": {"settings": {"mode_gamma": {"order": 5}}}}, {"output": {"pressure_base": ["cij"]}},
+             {"elast": {"settings": {"symmetry": {"system": "cubic"}}}, "qha": {"settings": {"DT": 50}}}]
+    n = 0
+    for u1 in users:
+        for u2 in users:
+            u1c, u2c = copy.deepcopy(u1), copy.deepcopy(u2)
+            r1 = cfg.apply_default_config(u1c)
+            if not typed_eq_deep(r1, py_merge(u1, packaged)):
+                return core.refuted("finite", "apply_default_config(%r) is not the user settings over the packaged defaults" % (u1,), witness_id="apply-default-first",
+                                    replay={"reproduced": True, "user": u1, "observed": r1})
+            _scramble(r1)
+            r2 = cfg.apply_default_config(u2c)
+            n += 1
+            if not typed_eq_deep(r2, py_merge(u2, packaged)):
+                return core.refuted("finite", "after an earlier effective configuration was edited in place, apply_default_config(%r) no longer equals the user settings over the "
+                                    "packaged defaults (defaults shared between calls)" % (u2,), witness_id="apply-default-history",
+                                    replay={"reproduced": True, "first_user": u1, "second_user": u2, "observed": r2, "expected": py_merge(u2, packaged)})
+            if not typed_eq_deep(u2c, u2):
+                return core.refuted("finite", "apply_default_config writes into the user's settings object", witness_id="apply-default-frame", replay={"reproduced": True, "user": u2})
+    return core.proved("finite", "%d histories (first result scrambled in place, then a second call): every later effective configuration = user over the file on disk; user object unchanged" % n)
 
 
 def read_config_dispatch(cfg):
